@@ -33,8 +33,13 @@ def run(tier, replay=None):
         v.report("leak:sockets", [], {"drift": drift, "what": "a child process holds more sockets after its scenarios than before"})
     if drift["goroutines"] > 0:
         v.report("leak:goroutines", [], {"drift": drift, "what": "a child process holds more goroutines after its scenarios than before"})
+    # discovery under a flood that lasts through the deadline (real Broadcast()): bounded return, nothing left behind
+    from .c05 import export
+    layouts, _ = export()
+    disc = common.harness_traces("c09disc", tier, shards=1, extra_args=["-x", "layouts=" + layouts], timeout=1800)
+    common.validate(v, "Trace_Api", "Trace_Api.cfg", disc, lambda conj, rec: "%s:%s" % (conj, rec.get("what")))
     v.coverage["rule"] = ("%d simulated behaviours per group (mixed paths incl. set-address, fixed and ephemeral bind port, faults silence / refused / reset, reply delays 0..T incl. late, strays) "
                           "+ hand-made flood behaviours (4..16 irrelevant datagrams per tick until the deadline, alone and with the genuine reply at T-1), replayed on real sockets and validated; "
-                          "process-level socket and goroutine counts after each batch. distinct = scenarios" % n)
+                          "process-level socket and goroutine counts after each batch; 12 (thorough 150) GetDevices calls under a datagram-per-millisecond flood from 0.7 T to 1.15 T with goroutine / socket accounting. distinct = scenarios" % n)
     v.coverage["checker_cmd"] = "tlc MC_Transport (live: PROPERTY Termination under WF; t; XF_*); tlc Trace_Transport"
     return v.finish()
